@@ -29,22 +29,22 @@ Fixpoint reject (lower upper : Q) (ds : list datum) (yfit : list Q) (mask : list
 
 Definition mask_eqb (a b : list bool) : bool := all2 Bool.eqb a b.
 
-Definition fit_masked (gb : list Q) (k : nat) (ds : list datum) (mask : list bool) : option (list Q) :=
-  fit_coeff gb k (map dx ds) (map dy ds) (masked_weights (map dw ds) mask).
+Definition fit_masked (sv : solver) (gb : list Q) (k : nat) (ds : list datum) (mask : list bool) : option (list Q) :=
+  fit_coeff_with sv gb k (map dx ds) (map dy ds) (masked_weights (map dw ds) mask).
 
 (* the loop on sorted data; fuel = maxiter + 1 = the largest number of fits.
    Returns the coefficients of the LAST fit and the mask after the LAST rejection pass.
    None = a fit was not uniquely solvable (outside the model: ill-posed problems are C09's status path). *)
-Fixpoint iter_loop (fuel : nat) (gb : list Q) (k : nat) (lower upper : Q) (ds : list datum) (mask : list bool)
+Fixpoint iter_loop (sv : solver) (fuel : nat) (gb : list Q) (k : nat) (lower upper : Q) (ds : list datum) (mask : list bool)
   : option (list Q * list bool) :=
   match fuel with
   | O => None
   | S f =>
-      match fit_masked gb k ds mask with
+      match fit_masked sv gb k ds mask with
       | None => None
       | Some c =>
           let mask' := reject lower upper ds (yfit_of gb k c (map dx ds)) mask in
-          if mask_eqb mask' mask || (f =? 0)%nat then Some (c, mask') else iter_loop f gb k lower upper ds mask'
+          if mask_eqb mask' mask || (f =? 0)%nat then Some (c, mask') else iter_loop sv f gb k lower upper ds mask'
       end
   end.
 
@@ -53,13 +53,17 @@ Definition initial_mask (ds : list datum) : list bool := map (fun d => Qltb 0 (d
 (* data in the caller's order, perm = the sorting permutation of the abscissae (numpy argsort);
    gb = the knot vector built from the good points (C08: knots_of_option); result: coefficients and the
    mask in the CALLER's order *)
-Definition iterfit_model (maxiter : nat) (lower upper : Q) (gb : list Q) (k : nat)
+Definition iterfit_model_with (sv : solver) (maxiter : nat) (lower upper : Q) (gb : list Q) (k : nat)
            (ds : list datum) (perm : list nat) : option (list Q * list bool) :=
   let sorted := apply_perm d0 perm ds in
-  match iter_loop (S maxiter) gb k lower upper sorted (initial_mask sorted) with
+  match iter_loop sv (S maxiter) gb k lower upper sorted (initial_mask sorted) with
   | None => None
   | Some (c, mw) => Some (c, unsort false perm mw)
   end.
+
+(* the documented procedure with the certified-unique dense solve; fit_fast is the cheap evaluator *)
+Definition iterfit_model := iterfit_model_with fit_dense.
+Definition iterfit_model_fast := iterfit_model_with fit_fast.
 
 (* the same with the knots computed from the positively weighted points (what iterfit does) *)
 Definition good_xs_sorted (ds : list datum) (perm : list nat) : list Q :=
